@@ -83,6 +83,9 @@ def _run_variant(args) -> Dict:
         except Exception as e:  # checker crash
             import traceback
             return {"vid": v.vid, "status": "crash", "detail": traceback.format_exc()[-800:]}
+        from ..report import load_known
+        known = {k["key"] for k in load_known() if k.get("status") == "known"}
+        fired = [k for k in fired if k not in known]      # known findings fire on every tree
         if v.expect == "violated":
             hit = [k for k in fired if v.oid is None or k.startswith(v.oid)]
             ok = bool(hit)
